@@ -315,6 +315,9 @@ func (o *origin) RoundTrip(req *http.Request) (*http.Response, error) {
 		return nil, err
 	}
 	rs.noteDates(resp.Header)
+	// (the instant of arrival as an HTTP-date — what a recipient records when the reply carries no usable Date,
+	// RFC 9110 §6.6.1: the ghost of the monitors writes it, so the date glue must know it whatever the cache wrote)
+	rs.noteDates(http.Header{"Date": {time.Now().UTC().Format(http.TimeFormat)}})
 	// whoever receives a response must release it: read the body to its end (or to an error) or close it;
 	// with a real transport an unreleased body pins its connection for ever
 	// (a response without a body — 304, 204, HEAD, Content-Length: 0 — pins nothing)
